@@ -22,7 +22,12 @@ type unsafeLoc struct {
 }
 
 func (x *Exec) matchUnsafe(st *State, fr *Frame, star *ast.StarExpr) (*unsafeLoc, bool) {
-	conv, ok := ast.Unparen(star.X).(*ast.CallExpr)
+	return x.matchUnsafeConv(st, fr, star.X)
+}
+
+// matchUnsafeConv: the pointer expression (*A)(unsafe.Pointer(uintptr(unsafe.Pointer(p)) + ...))
+func (x *Exec) matchUnsafeConv(st *State, fr *Frame, pe ast.Expr) (*unsafeLoc, bool) {
+	conv, ok := ast.Unparen(pe).(*ast.CallExpr)
 	if !ok || len(conv.Args) != 1 {
 		return nil, false
 	}
